@@ -23,7 +23,7 @@ func init() {
 			"(R4 normal form) the three results of predictorRowParams are, as polynomials over (colors, bpc, columns) with floor divisions as atoms and the module's checked-arithmetic helpers read as their operation, bytesPerPixel = floor((bpc*colors+7)/8), rowSize = floor((bpc*colors*columns+7)/8), rowLen = rowSize or rowSize+1 (nothing is evaluated; equal normal forms compute equal functions). (R5 dominance) no row leaves processRow successfully unless the p == PredictorTIFF test or a branch on the row's first byte dominates the return: the /Predictor value does not name the filter of a PNG row. " +
 			"(R6 TABLE) the comparisons between the three Paeth distances (identified as results of abs by the shape of their argument) cut exactly at pa<=pb, pa<=pc, pb<=pc in filterPaeth and paeth; (R7 flow) in decodePostProcessRows the loop-carried row buffers never receive themselves on a back edge. " +
 			"Both R1 and R2 are violated on the pinned tree; the repairs are feature work (sub-byte and 16-bit differencing, predictor support for LZW), so they are recorded as known findings with demonstrations. NOT decided: the arithmetic of the PNG filters and of differencing itself (value-level).",
-		Rules:       []string{"C17.R1 dependency: TIFF differencing receives the sample width", "C17.R2 siblings: a decoder that reads Predictor applies it", "C17.R3 TABLE: PNG filter types 0..4", "C17.R4 normal form: row size, row length and bytes per pixel are the formulas of RFC 2083 / TIFF 6.0 as polynomials with floor divisions", "C17.R5 dominance: every successful return of processRow is behind the TIFF test or behind the dispatch on the row's filter byte", "C17.R6 TABLE: the Paeth predictor's three distance comparisons cut at pa<=pb, pa<=pc, pb<=pc", "C17.R7 flow: the previous-row buffer is replaced on every back edge of the row loop"},
+		Rules:       []string{"C17.R1 dependency: TIFF differencing receives the sample width", "C17.R2 siblings: a decoder that reads Predictor applies it", "C17.R3 TABLE: PNG filter types 0..4", "C17.R4 normal form: row size, row length and bytes per pixel are the formulas of RFC 2083 / TIFF 6.0 as polynomials with floor divisions", "C17.R5 dominance: every successful return of processRow is behind the TIFF test or behind the dispatch on the row's filter byte", "C17.R6 TABLE: the Paeth predictor's three distance comparisons cut at pa<=pb, pa<=pc, pb<=pc", "C17.R7 flow: the previous-row buffer is replaced on every back edge of the row loop", "C17.R8 TABLE: validatePredictor accepts exactly 2 and 10..15", "C17.R9 shape: the Average filter halves a sum formed in a type wider than a byte"},
 		Assumptions: []string{"decode parameters are read through constant keys of the parms map"},
 		Level:       "other",
 		Technique:   "interprocedural taint from a parameter lookup to a call site; sibling reachability over the pkg/filter call graph; switch-case table",
@@ -132,6 +132,9 @@ func runC17(c *Ctx) {
 	r.MinInst["C17.R7"] = 2
 	checkPaethCuts(c)
 	checkPriorRowAdvances(c)
+	r.MinInst["C17.R8"] = 1
+	r.MinInst["C17.R9"] = 1
+	checkC17Round4b(c)
 	// ---- R1
 	var seeds []ssa.Value
 	for _, fn := range p.Funcs {
@@ -605,5 +608,87 @@ func checkPriorRowAdvances(c *Ctx) {
 	}
 	if n == 0 {
 		r.Bad("C17.R7", fid, "row buffers", p.Pos(fn.Pos()), "UNDECIDED: no loop-carried row buffers in a loop that reads rows")
+	}
+}
+
+// ---------------- C17.R8 / R9 (round 4 seeds C17-F, C17-E) ----------------
+
+func checkC17Round4b(c *Ctx) {
+	p, r := c.P, c.R
+	// R8 (TABLE): the predictor values ISO 32000 allows for Flate/LZW are 1, 2 and 10..15. validatePredictor accepts
+	// exactly the constants of its membership list; together with the "no predictor" shortcut of its callers (1) the
+	// list must contain 2, 10, 11, 12, 13, 14, 15.
+	if fn := p.Func("pkg/filter.validatePredictor"); fn == nil {
+		r.Bad("C17.R8", "pkg/filter.validatePredictor", "anchor", "", "UNRESOLVED-ANCHOR")
+	} else {
+		got := map[int64]bool{}
+		eachInstr(fn, func(_ *ssa.BasicBlock, _ int, i ssa.Instruction) {
+			switch x := i.(type) {
+			case *ssa.Store:
+				if k, ok := c31ConstInt(x.Val); ok {
+					if _, isIA := x.Addr.(*ssa.IndexAddr); isIA {
+						got[k] = true
+					}
+				}
+			case *ssa.BinOp:
+				if x.Op == token.EQL {
+					if k, ok := c31ConstInt(x.Y); ok {
+						got[k] = true
+					}
+				}
+			}
+		})
+		var miss []string
+		for _, k := range []int64{2, 10, 11, 12, 13, 14, 15} {
+			if !got[k] {
+				miss = append(miss, fmt.Sprint(k))
+			}
+		}
+		var extra []string
+		for k := range got {
+			if k != 1 && k != 2 && (k < 10 || k > 15) {
+				extra = append(extra, fmt.Sprint(k))
+			}
+		}
+		sort.Strings(extra)
+		if len(miss) == 0 && len(extra) == 0 {
+			r.OK("C17.R8", FuncID(fn), "accepted predictor values", p.Pos(fn.Pos()), "2 and 10..15 are accepted, nothing else", true)
+		} else {
+			r.Bad("C17.R8", FuncID(fn), "accepted predictor values", p.Pos(fn.Pos()), fmt.Sprintf("missing %v, extra %v: a /Predictor value the specification allows is reported as undefined (an error for an allowed parameter combination), or an undefined one is accepted", miss, extra))
+		}
+	}
+	// R9: RFC 2083 6.5: "the sum Raw(x-bpp)+Prior(x) shall be formed without overflow". In processRow every halving
+	// (division by 2 or shift by 1) of a SUM has an operand wider than a byte.
+	if fn := p.Func("pkg/filter.processRow"); fn == nil {
+		r.Bad("C17.R9", "pkg/filter.processRow", "anchor", "", "UNRESOLVED-ANCHOR")
+	} else {
+		n := 0
+		eachInstr(fn, func(_ *ssa.BasicBlock, _ int, i ssa.Instruction) {
+			bo, ok := i.(*ssa.BinOp)
+			if !ok {
+				return
+			}
+			halve := false
+			if k, ok := c31ConstInt(bo.Y); ok && ((bo.Op == token.QUO && k == 2) || (bo.Op == token.SHR && k == 1)) {
+				halve = true
+			}
+			if !halve {
+				return
+			}
+			sum, ok := bo.X.(*ssa.BinOp)
+			if !ok || sum.Op != token.ADD {
+				return
+			}
+			n++
+			bt, _ := sum.Type().Underlying().(*types.Basic)
+			if bt != nil && (bt.Kind() == types.Uint8 || bt.Kind() == types.Int8) {
+				r.Bad("C17.R9", FuncID(fn), fmt.Sprintf("average of two samples#%d", n), p.Pos(bo.Pos()), "the sum of the left and the upper sample is formed in byte arithmetic before it is halved: for left + above >= 256 it wraps, and the Average filter is undone to other bytes than RFC 2083 prescribes (no error)")
+			} else {
+				r.OK("C17.R9", FuncID(fn), fmt.Sprintf("average of two samples#%d", n), p.Pos(bo.Pos()), "the sum is formed in a type wider than a byte", true)
+			}
+		})
+		if n == 0 {
+			r.Bad("C17.R9", FuncID(fn), "average of two samples", p.Pos(fn.Pos()), "UNDECIDED: no halved sum found in processRow (Average filter)")
+		}
 	}
 }
